@@ -10,6 +10,9 @@ import PM.Monitor
 import Proofs.StepToks
 import Proofs.StepValid
 import Proofs.Respects
+import Proofs.RangeOps
+import Proofs.Fitter
+import Proofs.FitterText
 import Props.C01
 namespace PM.C11
 open PM
@@ -76,5 +79,340 @@ theorem respects_delete_text (S : Schema) (doc doc' : Node) (f t : Nat) (F T : N
   have hnil : textUnits (sliceToks' sl) = [] := isSubseq_nil _ (by simpa [textUnits] using hs)
   rw [← textUnits_filter, hc, textUnits_append, textUnits_append, textUnits_filter, textUnits_filter,
     textUnits_filter, hnil, List.append_nil]
+
+/-! ## The planning code in front of the Fitter (model PM/RangeOps.lean, tied exactly)
+
+`delete_range` widens the requested range before it calls `delete`; `replace_step` answers without
+a Fitter when the slice fits as it is.  For these two pieces the monitored hypothesis `respects`
+of the theorems above is a theorem. -/
+
+/-- **`delete_range` only widens the range over structure**: the pair `(f', t')` it hands to
+    `delete` contains `[f, t]`, lies in the document, every token it adds in front (`[f', f)`) is
+    an open token and every token it adds behind (`[t, t')`) is a close token — no text, no leaf -/
+theorem deleteRange_extends_structurally (S : Schema) (doc : Node) (f t f' t' : Nat)
+    (h : deleteRangeTarget S doc f t = some (f', t')) :
+    f' ≤ f ∧ t ≤ t' ∧ t' ≤ fsize doc.kids ∧
+    (∀ i, f' ≤ i → i < f → ∃ ty a m, (ftoks doc.kids)[i]? = some (Tok.op ty a m)) ∧
+    (∀ i, t ≤ i → i < t' → (ftoks doc.kids)[i]? = some Tok.cl) := by
+  unfold deleteRangeTarget at h
+  split at h
+  · rename_i rf rt hf ht
+    have Rf := resolve_resolved hf
+    have Rt := resolve_resolved ht
+    rcases deleteRangeTargetR_cases S Rf Rt f' t' h with
+      ⟨d, hm, rfl, rfl⟩ | ⟨d, hm, h1, rfl, rfl⟩ | ⟨d, h1, hdf, hdt, hfd, _, rfl, rfl⟩ | ⟨rfl, rfl⟩
+    · obtain ⟨hdf, hdt, hfd, htd⟩ := covered_tight S Rf Rt d hm
+      refine ⟨by omega, by omega, (Rt.end_le_size d hdt).1, fun i h1 h2 => Rf.open_run hf d hdf hfd i h1 h2,
+        fun i h1 h2 => Rt.close_run ht d hdt htd i h1 h2⟩
+    · obtain ⟨hdf, hdt, hfd, htd⟩ := covered_tight S Rf Rt d hm
+      refine ⟨by omega, by omega, (Rt.end_le_size d hdt).2 h1,
+        fun i h1' h2 => Rf.open_run_before hf d h1 hdf hfd i h1' h2,
+        fun i h1' h2 => Rt.close_run_after ht d h1 hdt htd i h1' h2⟩
+    · refine ⟨by omega, Nat.le_refl _, Rt.le, fun i h1' h2 => Rf.open_run_before hf d h1 hdf hfd i h1' h2,
+        fun i h1' h2 => by omega⟩
+    · exact ⟨Nat.le_refl _, Nat.le_refl _, Rt.le, fun i h1 h2 => by omega, fun i h1 h2 => by omega⟩
+  · simp at h
+
+/-- … in the vocabulary of the monitor: the two windows by which the range grew are structural -/
+theorem deleteRange_structuralOnly (S : Schema) (doc : Node) (f t f' t' : Nat)
+    (h : deleteRangeTarget S doc f t = some (f', t')) :
+    structuralOnly (between (ftoks doc.kids) f' f) = true ∧
+    structuralOnly (between (ftoks doc.kids) t t') = true := by
+  obtain ⟨h1, h2, _, ho, hc⟩ := deleteRange_extends_structurally S doc f t f' t' h
+  refine ⟨structuralOnly_between_of _ _ _ h1 fun i hi1 hi2 tk htk => ?_,
+    structuralOnly_between_of _ _ _ h2 fun i hi1 hi2 tk htk => ?_⟩
+  · obtain ⟨ty, a, m, e⟩ := ho i hi1 hi2
+    rw [e] at htk; cases htk; rfl
+  · rw [hc i hi1 hi2] at htk; cases htk; rfl
+
+/-- **the monitor survives the widening**: a step that respects the widened request `[f', t')`
+    also respects the original request `[f, t)` (for any requested slice).  So for `delete_range`
+    it is enough that the step emitted by the inner `delete(f', t')` respects *its* request. -/
+theorem respects_of_widened (toks : List Tok) (f t f' t' : Nat) (req : Slice) (st : Step)
+    (h1 : f' ≤ f) (hft : f ≤ t) (h2 : t ≤ t')
+    (s1 : structuralOnly (between toks f' f) = true) (s2 : structuralOnly (between toks t t') = true)
+    (hm : respects toks f' t' req st = true) : respects toks f t req st = true := by
+  rw [structuralOnly_between_iff] at s1 s2
+  cases st with
+  | replace F T sl b =>
+    simp only [respects, Bool.and_eq_true, decide_eq_true_eq] at hm ⊢
+    obtain ⟨⟨⟨⟨⟨⟨hFT, hT⟩, _⟩, a1⟩, a2⟩, hmin⟩, hs⟩ := hm
+    rw [structuralOnly_between_iff] at a1 a2
+    refine ⟨⟨⟨⟨⟨⟨hFT, hT⟩, hft⟩, ?_⟩, ?_⟩, by omega⟩, hs⟩
+    · rw [structuralOnly_between_iff]
+      intro i hi1 hi2 tk htk
+      rcases Nat.lt_or_ge i (min F f') with c | c
+      · omega
+      · rcases Nat.lt_or_ge i (max F f') with c' | c'
+        · exact a1 i c c' tk htk
+        · exact s1 i (by omega) (by omega) tk htk
+    · rw [structuralOnly_between_iff]
+      intro i hi1 hi2 tk htk
+      rcases Nat.lt_or_ge i (min t' T) with c | c
+      · exact s2 i (by omega) (by omega) tk htk
+      · rcases Nat.lt_or_ge i (max t' T) with c' | c'
+        · exact a2 i c c' tk htk
+        · omega
+  | replaceAround F T G1 G2 sl ins b =>
+    simp only [respects, Bool.and_eq_true, decide_eq_true_eq] at hm ⊢
+    obtain ⟨⟨⟨⟨⟨⟨⟨⟨⟨⟨⟨hFG, hGG⟩, hGT⟩, hT⟩, _⟩, htG⟩, a1⟩, a2⟩, a3⟩, hmin⟩, hn⟩, hs⟩ := hm
+    rw [structuralOnly_between_iff] at a1 a2
+    refine ⟨⟨⟨⟨⟨⟨⟨⟨⟨⟨⟨hFG, hGG⟩, hGT⟩, hT⟩, hft⟩, by omega⟩, ?_⟩, ?_⟩, a3⟩, by omega⟩, hn⟩, hs⟩
+    · rw [structuralOnly_between_iff]
+      intro i hi1 hi2 tk htk
+      rcases Nat.lt_or_ge i (min F f') with c | c
+      · omega
+      · rcases Nat.lt_or_ge i (max F f') with c' | c'
+        · exact a1 i c c' tk htk
+        · exact s1 i (by omega) (by omega) tk htk
+    · rw [structuralOnly_between_iff]
+      intro i hi1 hi2 tk htk
+      rcases Nat.lt_or_ge i t' with c | c
+      · exact s2 i (by omega) (by omega) tk htk
+      · exact a2 i (by omega) (by omega) tk htk
+  | _ => simp [respects] at hm
+
+/-- `delete_range`, composed: whatever step the inner `delete(f', t')` emits, if it respects its own
+    (widened) request then it respects the request `delete_range(f, t)` was given -/
+theorem deleteRange_respects (S : Schema) (doc : Node) (f t f' t' : Nat) (st : Step) (hft : f ≤ t)
+    (h : deleteRangeTarget S doc f t = some (f', t'))
+    (hm : respects (ftoks doc.kids) f' t' Slice.empty st = true) :
+    respects (ftoks doc.kids) f t Slice.empty st = true := by
+  obtain ⟨h1, h2, _⟩ := deleteRange_extends_structurally S doc f t f' t' h
+  obtain ⟨s1, s2⟩ := deleteRange_structuralOnly S doc f t f' t' h
+  exact respects_of_widened _ f t f' t' _ st h1 hft h2 s1 s2 hm
+
+/-- **the trivial fit respects the request**: when `fits_trivially` holds, the step
+    `ReplaceStep(f, t, slice)` that `replace_step` returns satisfies the monitor for the request
+    `(f, t, slice)` — on that path `respects_replace` needs no monitored hypothesis -/
+theorem fitsTrivially_respects (S : Schema) (doc : Node) (f t : Nat) (sl : Slice) (hft : f ≤ t)
+    (h : fitsTrivially S doc f t sl = some true) :
+    respects (ftoks doc.kids) f t sl (.replace f t sl false) = true := by
+  unfold fitsTrivially at h
+  split at h
+  · rename_i rf rt hf ht
+    have Rt := resolve_resolved ht
+    have hl : t ≤ (ftoks doc.kids).length := by rw [ftoks_length]; exact Rt.le
+    have e1 : between (ftoks doc.kids) f f = [] := by simp [between]
+    have e2 : between (ftoks doc.kids) t t = [] := by simp [between]
+    simp only [respects, e1, e2, Bool.and_eq_true, decide_eq_true_eq]
+    exact ⟨⟨⟨⟨⟨⟨hft, hl⟩, hft⟩, rfl⟩, rfl⟩, by omega⟩, isSubseq_refl _⟩
+  · simp at h
+
+/-- the same for `replace_step` as a whole, up to the Fitter: a step it returns on the trivial
+    path is `ReplaceStep(f, t, slice)` and respects the request -/
+theorem replaceStepTrivial_respects (S : Schema) (doc : Node) (f t : Nat) (sl : Slice) (st : Step)
+    (hft : f ≤ t) (h : replaceStepTrivial S doc f t sl = some (.step st)) :
+    st = .replace f t sl false ∧ respects (ftoks doc.kids) f t sl st = true := by
+  unfold replaceStepTrivial at h
+  split at h
+  · simp at h
+  · split at h
+    · simp at h
+    · rename_i hfit
+      simp only [Option.some.injEq, TrivialPlan.step.injEq] at h
+      subst h
+      exact ⟨rfl, fitsTrivially_respects S doc f t sl hft hfit⟩
+    · simp at h
+
+/-- **content preservation on the trivial path, unconditionally**: if `replace_step` answers
+    without a Fitter and its step applies, the text and leaf nodes before `f` and after `t` are kept
+    in order with exactly the slice's content between them -/
+theorem replaceStepTrivial_preserves (S : Schema) (doc doc' : Node) (f t : Nat) (sl : Slice) (st : Step)
+    (hft : f ≤ t) (h : replaceStepTrivial S doc f t sl = some (.step st))
+    (ha : S.apply st doc = .ok doc') :
+    (ftoks doc'.kids).filter Tok.isContent =
+      ((ftoks doc.kids).take f).filter Tok.isContent ++ (sliceToks' sl).filter Tok.isContent
+        ++ ((ftoks doc.kids).drop t).filter Tok.isContent := by
+  obtain ⟨rfl, hm⟩ := replaceStepTrivial_respects S doc f t sl st hft h
+  exact (respects_replace S doc doc' f t sl f t sl false hm ha).1
+
+/-- the hypotheses are satisfiable and the widening is real: in `doc(p("ab"), p("cd"))` (content
+    `paragraph+`, `paragraph` content `text+`), `delete_range(1, 3)` — the whole text of the first
+    paragraph — is handed to `delete` as `(0, 4)` (the paragraph goes too), `delete_range(1, 6)`
+    as `(0, 6)` (the `d` loop) -/
+example :
+    let nt (name : String) (isText inl : Bool) (dfa : Array DfaState) : NodeType :=
+      { name := name, isText := isText, isInline := isText, isLeaf := isText, isAtom := isText,
+        inlineContent := inl, isolating := false, defining := false, code := false,
+        dfa := dfa, markSet := none, attrs := [] }
+    let S : Schema := { nodes := #[nt "doc" false false #[⟨false, [(1, 1)]⟩, ⟨true, [(1, 1)]⟩],
+                                   nt "paragraph" false true #[⟨false, [(2, 1)]⟩, ⟨true, [(2, 1)]⟩],
+                                   nt "text" true false #[⟨true, []⟩]],
+                        marks := #[], top := 0, textTy := 2 }
+    let doc := Node.elem 0 [] [] [.elem 1 [] [] [.text [97, 98] []], .elem 1 [] [] [.text [99, 100] []]]
+    deleteRangeTarget S doc 1 3 = some (0, 4) ∧ deleteRangeTarget S doc 1 6 = some (0, 6) ∧
+    deleteRangeTarget S doc 2 3 = some (2, 3) ∧
+    fitsTrivially S doc 2 2 ⟨[.text [120] []], 0, 0⟩ = some true ∧
+    fitsTrivially S doc 1 3 Slice.empty = some false := by decide
+
+/-! ## The Fitter (model PM/Fitter.lean, tied exactly on the emitted step)
+
+`replaceStep` is `replace_step(doc, from, to, slice)` with the `Fitter` as an executable state
+machine (fuel for the `while` loop; `.error` = the code raises / the fuel ran out; `.ok none` =
+`None`).  The theorems below speak about every step it emits. -/
+
+/-- **`fit_range`**: the step `replace_step` emits starts at the requested `from`.  A replace step
+    ends at `T ≥ to`; a replace-around step keeps the gap `[to, G2)` and ends at `T > G2`.  Whatever
+    lies between the requested end (resp. the end of the gap) and `T` is close tokens only, and `T`
+    is inside the document: the Fitter only ever extends the range over closing structure. -/
+theorem fit_range (S : Schema) (doc : Node) (f t : Nat) (sl : Slice) (st : Step)
+    (h : replaceStep S doc f t sl = .ok (some st)) :
+    (∃ T sl', st = .replace f T sl' false ∧ t ≤ T ∧ T ≤ fsize doc.kids ∧
+      ∀ i, t ≤ i → i < T → (ftoks doc.kids)[i]? = some Tok.cl) ∨
+    (∃ T G2 sl' ins, st = .replaceAround f T t G2 sl' ins false ∧ t ≤ G2 ∧ G2 < T ∧
+      T ≤ fsize doc.kids ∧ ∀ i, G2 ≤ i → i < T → (ftoks doc.kids)[i]? = some Tok.cl) := by
+  unfold replaceStep at h
+  split at h
+  · simp [pure, Except.pure] at h
+  · split at h
+    · rename_i rf rt hf ht
+      split at h
+      · simp [throw, throwThe, MonadExceptOf.throw] at h
+      · have := pure_ok h
+        simp only [Option.some.injEq] at this
+        subst this
+        exact .inl ⟨t, sl, rfl, Nat.le_refl _, (resolve_resolved ht).le, fun i h1 h2 => by omega⟩
+      · exact fitterFit_range S hf ht sl _ st h
+    · simp [throw, throwThe, MonadExceptOf.throw] at h
+
+/-- … in the vocabulary of the monitor: the *range half* of `respects` holds for every step the
+    Fitter emits (for `f ≤ t`): ordering, bounds and the structural windows.  What remains
+    monitored is the text half (the inserted text is a subsequence of the requested text, nothing
+    after the gap is text). -/
+theorem fit_range_monitor (S : Schema) (doc : Node) (f t : Nat) (sl : Slice) (st : Step) (hft : f ≤ t)
+    (h : replaceStep S doc f t sl = .ok (some st)) :
+    match st with
+    | .replace F T _ _ =>
+      F ≤ T ∧ T ≤ (ftoks doc.kids).length ∧
+      structuralOnly (between (ftoks doc.kids) F f) = true ∧
+      structuralOnly (between (ftoks doc.kids) t T) = true ∧ min F f ≤ min t T
+    | .replaceAround F T G1 G2 _ _ _ =>
+      F ≤ G1 ∧ G1 ≤ G2 ∧ G2 ≤ T ∧ T ≤ (ftoks doc.kids).length ∧ t ≤ G1 ∧
+      structuralOnly (between (ftoks doc.kids) F f) = true ∧
+      structuralOnly (between (ftoks doc.kids) t G1) = true ∧
+      structuralOnly (between (ftoks doc.kids) G2 T) = true ∧ min F f ≤ t
+    | _ => False := by
+  have cls : ∀ a b, a ≤ b → (∀ i, a ≤ i → i < b → (ftoks doc.kids)[i]? = some Tok.cl) →
+      structuralOnly (between (ftoks doc.kids) a b) = true := by
+    intro a b hab hc
+    exact structuralOnly_between_of _ _ _ hab fun i h1 h2 tk htk => by
+      rw [hc i h1 h2] at htk; cases htk; rfl
+  have nil : ∀ a, structuralOnly (between (ftoks doc.kids) a a) = true := by
+    intro a; simp [between, structuralOnly]
+  rcases fit_range S doc f t sl st h with ⟨T, sl', rfl, h1, h2, h3⟩ | ⟨T, G2, sl', ins, rfl, h1, h2, h3, h4⟩
+  · simp only
+    rw [ftoks_length]
+    exact ⟨by omega, h2, nil f, cls t T h1 h3, by omega⟩
+  · simp only
+    rw [ftoks_length]
+    exact ⟨hft, h1, by omega, h3, Nat.le_refl _, nil f, nil t, cls G2 T (by omega) h4, by omega⟩
+
+/-- **`fitter_slice_text_subsequence`** — the invariant of the Fitter's loop `while self.unplaced.size`
+    (`find_fittable` / `place_nodes` / `open_more` / `drop_node`, any number of iterations): the text
+    already placed followed by the text still unplaced is an in-order subsequence of what it was
+    when the loop started.  Text is never invented, duplicated or reordered; it can only be dropped. -/
+theorem fitter_slice_text_subsequence (S : Schema) (fuel : Nat) (st st' : FitState)
+    (h : fitLoop S fuel st = .ok st') :
+    (ftext st'.placed ++ ftext st'.unplaced.content).Sublist
+      (ftext st.placed ++ ftext st.unplaced.content) :=
+  fitLoop_text S fuel st st' h
+
+/-- **the text half of `respects`**: the slice of the step `replace_step` emits carries only text
+    of the requested slice, in order (`sl.wf`: the requested slice's open depths do not exceed its
+    spine — true of every slice cut from a document) -/
+theorem fit_text (S : Schema) (doc : Node) (f t : Nat) (sl : Slice) (st : Step) (hwf : sl.wf = true)
+    (h : replaceStep S doc f t sl = .ok (some st)) :
+    ∃ sl', st.sliceOf = some sl' ∧
+      (textUnits (sliceToks' sl')).Sublist (textUnits (sliceToks' sl)) := by
+  unfold replaceStep at h
+  split at h
+  · simp [pure, Except.pure] at h
+  · split at h
+    · rename_i rf rt hf ht
+      split at h
+      · simp [throw, throwThe, MonadExceptOf.throw] at h
+      · have := pure_ok h
+        simp only [Option.some.injEq] at this
+        subst this
+        exact ⟨sl, rfl, List.Sublist.refl _⟩
+      · obtain ⟨sl', hs, hsub⟩ := fitterFit_text S hf rt sl _ st h
+        refine ⟨sl', hs, ?_⟩
+        rw [sliceToks'_text_wf sl hwf]
+        exact (sliceToks'_text_sublist sl').trans hsub
+    · simp [throw, throwThe, MonadExceptOf.throw] at h
+
+/-- **`fitter_respects`** — the C11 monitor is a theorem for the Fitter model: every step
+    `replace_step` emits for a request `(f, t, slice)` with `f ≤ t` and a well-formed slice satisfies
+    `respects`.  For a replace step this is unconditional.  For a replace-around step one conjunct of
+    the monitor stays a hypothesis (`htail`: nothing the step inserts after the kept gap is text);
+    it needs an invariant tying the frontier depth to the last-child chain of `placed`, which
+    `place_nodes` does not maintain syntactically (it reads `frontier[frontier_depth]` after opening
+    the wrapper nodes) — that conjunct is still evaluated by the correspondence run. -/
+theorem fitter_respects (S : Schema) (doc : Node) (f t : Nat) (sl : Slice) (st : Step) (hft : f ≤ t)
+    (hwf : sl.wf = true) (h : replaceStep S doc f t sl = .ok (some st))
+    (htail : ∀ F T G1 G2 sl' ins b, st = .replaceAround F T G1 G2 sl' ins b →
+      noText ((sliceToks' sl').drop ins) = true) :
+    respects (ftoks doc.kids) f t sl st = true := by
+  have hr := fit_range_monitor S doc f t sl st hft h
+  obtain ⟨sl', hs, hsub⟩ := fit_text S doc f t sl st hwf h
+  cases st with
+  | replace F T sl2 b =>
+    simp only [Step.sliceOf, Option.some.injEq] at hs
+    subst hs
+    simp only at hr
+    simp only [respects, Bool.and_eq_true, decide_eq_true_eq]
+    exact ⟨⟨⟨⟨⟨⟨hr.1, hr.2.1⟩, hft⟩, hr.2.2.1⟩, hr.2.2.2.1⟩, hr.2.2.2.2⟩, isSubseq_of_sublist hsub⟩
+  | replaceAround F T G1 G2 sl2 ins b =>
+    simp only [Step.sliceOf, Option.some.injEq] at hs
+    subst hs
+    simp only at hr
+    obtain ⟨r1, r2, r3, r4, r5, r6, r7, r8, r9⟩ := hr
+    simp only [respects, Bool.and_eq_true, decide_eq_true_eq]
+    refine ⟨⟨⟨⟨⟨⟨⟨⟨⟨⟨⟨r1, r2⟩, r3⟩, r4⟩, hft⟩, r5⟩, r6⟩, r7⟩, r8⟩, r9⟩, htail _ _ _ _ _ _ _ rfl⟩, ?_⟩
+    exact isSubseq_of_sublist ((textUnits_sublist (List.take_sublist _ _)).trans hsub)
+  | _ => simp at hr
+
+/-- **content preservation for fitted replace steps, without a monitored hypothesis**: if
+    `replace_step` emits a replace step and it applies, all text and leaf nodes before `f` and after
+    `t` are kept in order, with exactly the step's slice content between them, whose text is an
+    in-order subsequence of the requested text -/
+theorem fitter_replace_preserves (S : Schema) (doc doc' : Node) (f t : Nat) (sl : Slice)
+    (F T : Nat) (sl' : Slice) (b : Bool) (hft : f ≤ t) (hwf : sl.wf = true)
+    (h : replaceStep S doc f t sl = .ok (some (.replace F T sl' b)))
+    (ha : S.apply (.replace F T sl' b) doc = .ok doc') :
+    (ftoks doc'.kids).filter Tok.isContent =
+      ((ftoks doc.kids).take f).filter Tok.isContent ++ (sliceToks' sl').filter Tok.isContent
+        ++ ((ftoks doc.kids).drop t).filter Tok.isContent ∧
+    isSubseq (textUnits (sliceToks' sl')) (textUnits (sliceToks' sl)) = true :=
+  respects_replace S doc doc' f t sl F T sl' b
+    (fitter_respects S doc f t sl _ hft hwf h (fun _ _ _ _ _ _ _ he => by cases he)) ha
+
+/-- **`delete_range` as a whole** (`deleteRangeStep` = widening by `delete_range`, then
+    `replace_step` with the empty slice, tied exactly on the recorded step): the step it records
+    respects the request `delete_range(f, t)` was given — unconditionally for a replace step, with
+    the residual hypothesis of `fitter_respects` for a replace-around step -/
+theorem deleteRange_fitted_respects (S : Schema) (doc : Node) (f t : Nat) (st : Step) (hft : f ≤ t)
+    (h : deleteRangeStep S doc f t = .ok (some st))
+    (htail : ∀ F T G1 G2 sl' ins b, st = .replaceAround F T G1 G2 sl' ins b →
+      noText ((sliceToks' sl').drop ins) = true) :
+    respects (ftoks doc.kids) f t Slice.empty st = true := by
+  unfold deleteRangeStep at h
+  split at h
+  · simp [throw, throwThe, MonadExceptOf.throw] at h
+  · rename_i a b htg
+    obtain ⟨h1, h2, _⟩ := deleteRange_extends_structurally S doc f t a b htg
+    have hm := fitter_respects S doc a b Slice.empty st (by omega) (by decide) h htail
+    exact deleteRange_respects S doc f t a b st hft htg hm
+
+/-- … hence **`delete_range` removes exactly the text inside `[f, t)` and adds none**, whenever
+    the step it records is a replace step and applies — no monitored hypothesis left -/
+theorem deleteRange_fitted_text (S : Schema) (doc doc' : Node) (f t F T : Nat) (sl' : Slice) (b : Bool)
+    (hft : f ≤ t) (h : deleteRangeStep S doc f t = .ok (some (.replace F T sl' b)))
+    (ha : S.apply (.replace F T sl' b) doc = .ok doc') :
+    textUnits (ftoks doc'.kids) =
+      textUnits ((ftoks doc.kids).take f) ++ textUnits ((ftoks doc.kids).drop t) :=
+  respects_delete_text S doc doc' f t F T sl' b
+    (deleteRange_fitted_respects S doc f t _ hft h (fun _ _ _ _ _ _ _ he => by cases he)) ha
 
 end PM.C11
